@@ -262,8 +262,13 @@ StepRcn(S, f, enforce) ==
          ELSE IF Pending(S) THEN FlushPoint(S, enforce)             \* query for recorded children
          ELSE SetPc(IF a.kid \in vis.Node THEN Stage(S, "Edge", {<<a.node, a.kid>>}) ELSE S, 2)
     [] f.pc = 2 -> Push(SetPc(S, 3), Frame("rv", [A0 EXCEPT !.v = a.arg]))
-    [] f.pc = 3 -> SetPc(IF <<a.node, a.arg>> \in vis.Arg THEN S ELSE Stage(S, "Arg", {<<a.node, a.arg>>}), 4)
+    [] f.pc = 3 ->
+         IF <<a.node, a.arg>> \in vis.Arg
+         THEN IF FixNodeExit THEN SetPc(S, 4) ELSE SetPc(S, 7)    \* as built: INSERT again
+         ELSE SetPc(Stage(S, "Arg", {<<a.node, a.arg>>}), 4)
     [] f.pc = 4 -> CommitPoint(S, 5, enforce)
+    [] f.pc = 7 ->  \* the Argument row exists (left dangling by an earlier run): UNIQUE fails in the flush
+         Abort(Dev(Pt(S, "commit", TabsOf(Staged(S)) \cup {"Arg"}), "DuplicateArgument"), "IntegrityError")
     [] f.pc = 5 -> SetPc(Stage(S, "Sub", SubRows(a.node, a.sub) \ vis.Sub), 6)
     [] OTHER -> CommitPoint(S, -1, enforce)
 
@@ -409,10 +414,6 @@ GhostMerkle == \A x \in s.tsub : x[2] \in NodeTasks(x[1])
 
 \* ---- strict contract (C22 / C03 as stated) ----
 FKAlways == FKClosed(s.db)
-RunOK(i) ==  \* outcome i is acceptable for the property
-  LET o == s.outs[i] IN
-  IF i = 1 THEN (s.inj.kind # "crash" => (o[1] = "ok" /\ o[2] = "r11"))
-  ELSE TRUE
 \* recovery runs return what a run on an empty backend returns (reg does not change while a run
 \* is in progress, so the check is made when the outcome is appended)
 RecoveryFresh == (~Running(s) /\ Len(s.outs) >= 2) =>
